@@ -133,3 +133,17 @@ Theorem C01_message_sequence_unchecked : forall k zc msgs cap,
                        = Ok (map (fun q => (fst q, canon PBinary (snd q))) msgs, u2) /\ urest u2 = r)).
 Proof. exact unchecked_message_sequence. Qed.
 Print Assumptions C01_message_sequence_unchecked.
+
+(* completeness side of the PrimOps table: Generated/TraitMethods.v is regenerated from the trait
+   definitions of pilota/src/thrift/mod.rs; for each of the 15 impls (3 protocols x {len, write over
+   BytesMut, write over LinkedBytes, sync read, async read}) every REQUIRED method of its trait --
+   minus the exceptions listed by name in [not_tabled]: accessors / plumbing, the skippers (C07), and the
+   reader methods the translator does not lower (the stateful compact readers, the envelope readers) --
+   has a row, so the `forall r, In r prim_ops` of the theorems above cannot shrink silently; and every
+   row is a method of its impl's trait or a named helper, no key twice *)
+From PV Require Import Generated.TraitMethods Proofs.PrimOpsCompleteP.
+Theorem C01_prim_ops_complete :
+  (forall k, In k expected_keys -> exists r, In r prim_ops /\ key_of r = k) /\
+  forallb row_expected prim_ops = true /\ dup_free (map key_of prim_ops) = true.
+Proof. exact (conj prim_ops_complete_In prim_ops_only_expected). Qed.
+Print Assumptions C01_prim_ops_complete.
